@@ -8,7 +8,6 @@ package main
 import (
 	"encoding/json"
 	"fmt"
-	"math/rand/v2"
 	"os"
 	"path/filepath"
 	"reflect"
@@ -587,8 +586,6 @@ func runGeneratedDoc(c *ctx, i int) {
 		c.run.SampleKind("generated-document:"+twist+":"+fmt.Sprint(res.errored), map[string]any{"type": s.name, "document": trunc(doc, 400), "outcome_buckets": res.buckets, "error": wit["error"]})
 	}
 }
-
-var _ = rand.New
 
 // mustDecode decodes a document again for a sample (errors ignored: samples are illustration only).
 func mustDecode(s *typeSpec, doc string) any {
